@@ -163,10 +163,14 @@ def check(ctx):
         ctx.ob('C08.P2', 'purge|every-tombstone-kept-or-reported', every, site(purge),
                'every tombstone taken out of the map is either re-inserted or returned as purged' if every else
                'an iteration of the purge loop can drop a tombstone without keeping or reporting it: storage keeps a tombstone the set forgot')
+    # VSEM: the version vectors themselves, summarised by P-ORDER (versions_abs): max-register per (source, origin), cut-off =
+    # min over all sources (missing = zero) minus the forgiveness constant, recomputed on every update / merge, strict predicate
+    import versions_abs
+    sem_v = versions_abs.check_versions(ctx, facts, 'C08.VSEM')
     # strictness of the predicate
     pb_ = facts.body(NV + PRED)
-    found = False
-    if pb_ is not None:
+    found = sem_v
+    if pb_ is not None and not sem_v:
         for body in facts.group(pb_):
             flow = Flow(body)
             for c in all_comparisons(body):
@@ -189,6 +193,9 @@ def check(ctx):
         ctx.bad('C08.P2', 'predicate|strict', '', 'no comparison found in the cut-off predicate (fail closed)')
 
     # ---- P3 ---------------------------------------------------------------------
+    if sem_v:
+        check_fp_value(ctx, facts)
+        return
     writers = cutoff_writers(facts, PRED)
     with_min = [b_ for b_ in writers if any(cname(t_) and re.search(r'Iterator::(min|max|min_by_key|max_by_key)$|cmp::(Ord::)?(min|max)$', cname(t_)) for _x, t_ in b_.calls())]
     cs = with_min[0] if with_min else (writers[0] if writers else None)
@@ -251,6 +258,10 @@ def check(ctx):
                'forgiveness subtraction is `%s` with %s; result %s' % (meth, 'FORGIVENESS_PERIOD' if is_fp else 'a different operand', 'stored' if ins else 'not stored'))
     if not sub:
         ctx.bad('C08.P3', 'cutoff|forgiveness', site(cs), 'the cut-off does not subtract FORGIVENESS_PERIOD: tombstones are purged with no allowance for late operations')
+    check_fp_value(ctx, facts)
+
+
+def check_fp_value(ctx, facts):
     # value of the constant
     fp = facts.body('datacake_crdt::orswot::FORGIVENESS_PERIOD')
     if fp is None:
